@@ -114,9 +114,10 @@ Lemma ns_eta : forall s : NS,
          (ns_pending s) = s.
 Proof. intros []; reflexivity. Qed.
 
-(* the environment of the fragment: no immediate completions, no reactions, no mutation *)
+(* the environment of the fragment: no reactions from inside notifications, no mutation of
+   parameter lists (immediate completions of services are allowed) *)
 Definition env_quiet (env : envcfg) : Prop :=
-  (forall k, ec_imm env k = false) /\ (forall k, ec_react env k = None) /\ ec_mutate env = 0.
+  (forall k, ec_react env k = None) /\ ec_mutate env = 0.
 
 Section Cbs.
   Variable tasks : list task.
@@ -222,9 +223,10 @@ Section Cbs.
       <| ns_nnot := S (ns_nnot s) |>.
   Lemma engine_reacts_frag : forall f k ai s a,
       nth_error (ns_apis s) ai = Some a ->
+      (k = SS -> ec_imm env (ns_nss s) = false) ->
       engine_reacts tasks env (S f) k ai s = Ok (tt, reacted k a s).
   Proof.
-    intros f k ai s a Ha. destruct Hq as (Himm & Hreact & Hmut).
+    intros f k ai s a Ha Himm. destruct Hq as (Hreact & Hmut).
     rewrite engine_reacts_S. unfold nbind at 1. unfold get_api at 1. rewrite Ha.
     cbv zeta. rewrite Hmut. unfold hostile.
     destruct s as [pl tr cbs pd apis sp fp fr ti aw rn cn tid sid ls obs lg q nss nnot pend].
@@ -232,7 +234,9 @@ Section Cbs.
     destruct k; unfold nbind, nget, nmod, nret, set_api, reacted, pend_after.
     all: cbn [ns_pending ns_nss ns_nnot ns_apis set].
     all: cbn.
-    all: rewrite ?Himm, ?Hreact, ?orb_true_r.
+    all: cbn [ns_nss] in Himm.
+    all: try rewrite (Himm eq_refl).
+    all: rewrite ?Hreact, ?orb_true_r.
     all: rewrite ?(upd_same _ _ _ _ _ Ha (with_params_same a)).
     all: try reflexivity.
     all: destruct (ec_react_all env); cbn; try reflexivity.
@@ -304,9 +308,10 @@ Section Cbs.
   Lemma notify_user_frag : forall f k ai fin s a,
       ls_ok (ns_ls s) ->
       nth_error (ns_apis s) ai = Some a ->
+      (k = SS -> ec_imm env (ns_nss s) = false) ->
       notify_user tasks env (S (S f)) k ai fin s = Ok (tt, notified k a fin s).
   Proof.
-    intros f k ai fin s a Hls Ha. destruct (Hls k) as (rest & HL & Hn0).
+    intros f k ai fin s a Hls Ha Himm. destruct (Hls k) as (rest & HL & Hn0).
     rewrite notify_user_S. unfold nbind at 1. unfold nget at 1. unfold nbind at 1.
     pose proof (listeners_length k (ns_ls s)) as Hlen. rewrite HL in Hlen. cbn [List.length] in Hlen.
     set (e0 := ENotif 0 (notif_of s k a) (ns_running s)).
@@ -316,7 +321,7 @@ Section Cbs.
     { cbn [neach]. unfold nbind at 1. unfold nget at 1. rewrite HL. cbn [nth_error].
       unfold nbind at 1. unfold get_api at 1. rewrite Ha.
       unfold nbind at 1. unfold nlog at 1, nmod at 1. cbn [rev app Nat.eqb].
-      unfold nbind at 1. rewrite (engine_reacts_frag f k ai _ a) by exact Ha. fold e0. fold s1.
+      unfold nbind at 1. rewrite (engine_reacts_frag f k ai _ a) by (first [exact Ha|exact Himm]). fold e0. fold s1.
       apply (neach_tail f k ai a rest 1 s1 (List.length (ns_ls s))); [exact Ha| |exact Hn0|lia].
       change (ns_ls s1) with (ns_ls s). rewrite HL. reflexivity. }
     rewrite E. clear E. unfold notified, notif_entries. rewrite HL.
@@ -371,6 +376,7 @@ Section Cbs.
     - exact Hls.
     - cbn [ns_apis set]. change (ns_apis (s <| ns_tid := S (ns_tid s) |>)) with (ns_apis s).
       apply nth_error_upd_eq. exact Ha.
+    - intro E; discriminate E.
   Qed.
 
   Lemma on_service_started_S : forall f ai,
@@ -405,14 +411,41 @@ Section Cbs.
       <| ns_apis := upd ai (with_uuid (ITest (ns_sid s))) (ns_apis s) |>
       <| ns_awaited := ns_awaited s ++ [EvFinish (ITest (ns_sid s))] |>.
 
+  Lemma on_service_started_eq : forall f ai s a p,
+      ns_test_ids s = true ->
+      nth_error (ns_apis s) ai = Some a -> a_in_loop a = false ->
+      dict_get ident_eqb (a_uuid a) (ns_place_dict s) = Some p ->
+      on_service_started tasks env (S (S (S f))) ai s
+      = notify_user tasks env (S (S f)) SS ai false (ss_pre ai p s).
+  Proof.
+    intros f ai s a p Hti Ha Hloop Hd.
+    rewrite on_service_started_S. unfold nbind at 1. unfold get_api at 1. rewrite Ha.
+    unfold nbind at 1. unfold nget at 1. cbv zeta. rewrite Hloop, Hti.
+    unfold nbind at 1. unfold nbind at 1. unfold new_test_or_uuid.
+    unfold nbind at 1. unfold nget at 1. rewrite Hti.
+    unfold nbind at 1. unfold nmod at 1. unfold nret at 1.
+    unfold nbind at 1. unfold nget at 1.
+    change (ns_place_dict (s <| ns_sid := S (ns_sid s) |>)) with (ns_place_dict s). rewrite Hd.
+    unfold nbind at 1. unfold nmod at 1. unfold set_api at 1. unfold nmod at 1.
+    unfold nbind at 1. unfold get_api at 1.
+    match goal with |- context [nth_error (ns_apis ?X) ai] =>
+      change (ns_apis X) with (upd ai (with_uuid (ITest (ns_sid s))) (ns_apis s)) end.
+    rewrite (nth_error_upd_eq _ _ _ _ _ Ha).
+    unfold nbind at 1. unfold nmod at 1.
+    change (a_uuid (with_uuid (ITest (ns_sid s)) a)) with (ITest (ns_sid s)).
+    match goal with |- notify_user _ _ _ _ _ _ ?X = _ => change X with (ss_pre ai p s) end.
+    reflexivity.
+  Qed.
+
   Lemma on_service_started_frag : forall f ai s a p,
       ls_ok (ns_ls s) -> ns_test_ids s = true ->
       nth_error (ns_apis s) ai = Some a -> a_in_loop a = false ->
       dict_get ident_eqb (a_uuid a) (ns_place_dict s) = Some p ->
+      ec_imm env (ns_nss s) = false ->
       on_service_started tasks env (S (S (S f))) ai s
       = Ok (tt, notified SS (with_uuid (ITest (ns_sid s)) a) false (ss_pre ai p s)).
   Proof.
-    intros f ai s a p Hls Hti Ha Hloop Hd.
+    intros f ai s a p Hls Hti Ha Hloop Hd Hni.
     rewrite on_service_started_S. unfold nbind at 1. unfold get_api at 1. rewrite Ha.
     unfold nbind at 1. unfold nget at 1. cbv zeta. rewrite Hloop, Hti.
     unfold nbind at 1. unfold nbind at 1. unfold new_test_or_uuid.
@@ -432,6 +465,7 @@ Section Cbs.
     - exact Hls.
     - change (ns_apis (ss_pre ai p s)) with (upd ai (with_uuid (ITest (ns_sid s))) (ns_apis s)).
       apply nth_error_upd_eq. exact Ha.
+    - intros _. exact Hni.
   Qed.
 
   (* ---- statements generated inside a loop body (in_loop = true): the parameters are reset
@@ -567,7 +601,7 @@ Section Cbs.
         change (a_params a) with (a_params (with_uuid (ITest (ns_tid s)) a)). apply with_params_same. }
     rewrite Estep.
     rewrite (subst_loop_noop ai s1 _ Ha1).
-    - rewrite Hs1. apply notify_user_frag; [exact Hls|rewrite <- Hs1; exact Ha1].
+    - rewrite Hs1. apply notify_user_frag; [exact Hls|rewrite <- Hs1; exact Ha1|intro E0; discriminate E0].
     - intros ci Hci. cbn [with_uuid a_ctx] in Hci. destruct (Hctx ci Hci) as [c Hc].
       rewrite Hs1. unfold ts_pre. cbn [ns_apis set]. change (ns_apis (s <| ns_tid := S (ns_tid s) |>)) with (ns_apis s).
       destruct (Nat.eq_dec ai ci) as [->|Hne'].
@@ -585,16 +619,16 @@ Section Cbs.
   (* the service callback draws a uuid4 first, even in test-id mode *)
   Definition ss_pre_loop (ai : nat) (p : nat) (s : NS) : NS := ss_pre ai p (s <| ns_fresh := S (ns_fresh s) |>).
 
-  Lemma on_service_started_loop : forall f ai s a p,
-      ls_ok (ns_ls s) -> ns_test_ids s = true ->
+  Lemma on_service_started_loop_eq : forall f ai s a p,
+      ns_test_ids s = true ->
       nth_error (ns_apis s) ai = Some a -> a_in_loop a = true -> a_params a = a_src a ->
       (forall ci, a_ctx a = Some ci -> exists c, nth_error (ns_apis s) ci = Some c) ->
       (forall ci, a_ctx a = Some ci -> ci <> ai) -> sub_ok s a ->
       dict_get ident_eqb (a_uuid a) (ns_place_dict s) = Some p ->
       on_service_started tasks env (S (S (S f))) ai s
-      = Ok (tt, notified SS (with_uuid (ITest (ns_sid s)) a) false (ss_pre_loop ai p s)).
+      = notify_user tasks env (S (S f)) SS ai false (ss_pre_loop ai p s).
   Proof.
-    intros f ai s a p Hls Hti Ha Hloop Hps Hctx Hne Hcn Hd.
+    intros f ai s a p Hti Ha Hloop Hps Hctx Hne Hcn Hd.
     rewrite on_service_started_S. unfold nbind at 1. unfold get_api at 1. rewrite Ha.
     unfold nbind at 1. unfold nget at 1. cbv zeta. rewrite Hloop, Hti.
     unfold nbind at 1. unfold nbind at 1. unfold fresh_uuid at 1.
@@ -625,7 +659,62 @@ Section Cbs.
       unfold nmod at 1.
       change (a_uuid (with_uuid (ITest (ns_sid s)) a)) with (ITest (ns_sid s)).
       match goal with |- notify_user _ _ _ _ _ _ ?X = _ => assert (EX : X = ss_pre_loop ai p s) by (destruct s; reflexivity) end.
-      rewrite EX. apply notify_user_frag; [exact Hls|].
+      rewrite EX. reflexivity.
+    - intros ci Hci. cbn [with_uuid a_ctx] in Hci. destruct (Hctx ci Hci) as [c Hc].
+      unfold s1. cbn [ns_apis set].
+      destruct (Nat.eq_dec ai ci) as [->|Hne'].
+      + eexists. apply nth_error_upd_eq. exact Hc.
+      + exists c. rewrite nth_error_upd_neq by exact Hne'. exact Hc.
+    - cbn [with_uuid a_params a_src]. exact Hps.
+    - intros ci c d Hci Hc Hd'. cbn [with_uuid a_ctx a_src] in *.
+      assert (Hc' : nth_error (ns_apis s) ci = Some c).
+      { unfold s1 in Hc. cbn [ns_apis set] in Hc.
+        rewrite nth_error_upd_neq in Hc; [exact Hc|]. intros ->. exact (Hne _ Hci eq_refl). }
+      apply (Hcn ci c d Hci Hc'). exact Hd'.
+  Qed.
+
+  Lemma on_service_started_loop : forall f ai s a p,
+      ls_ok (ns_ls s) -> ns_test_ids s = true ->
+      nth_error (ns_apis s) ai = Some a -> a_in_loop a = true -> a_params a = a_src a ->
+      (forall ci, a_ctx a = Some ci -> exists c, nth_error (ns_apis s) ci = Some c) ->
+      (forall ci, a_ctx a = Some ci -> ci <> ai) -> sub_ok s a ->
+      dict_get ident_eqb (a_uuid a) (ns_place_dict s) = Some p ->
+      ec_imm env (ns_nss s) = false ->
+      on_service_started tasks env (S (S (S f))) ai s
+      = Ok (tt, notified SS (with_uuid (ITest (ns_sid s)) a) false (ss_pre_loop ai p s)).
+  Proof.
+    intros f ai s a p Hls Hti Ha Hloop Hps Hctx Hne Hcn Hd Hni.
+    rewrite on_service_started_S. unfold nbind at 1. unfold get_api at 1. rewrite Ha.
+    unfold nbind at 1. unfold nget at 1. cbv zeta. rewrite Hloop, Hti.
+    unfold nbind at 1. unfold nbind at 1. unfold fresh_uuid at 1.
+    unfold nbind at 1. unfold new_test_or_uuid at 1.
+    unfold nbind at 1. unfold nget at 1.
+    change (ns_test_ids (s <| ns_fresh := S (ns_fresh s) |>)) with (ns_test_ids s). rewrite Hti.
+    unfold nbind at 1. unfold nmod at 1. unfold nret at 1.
+    unfold nbind at 1. unfold nbind at 1. unfold nget at 1.
+    set (sf := s <| ns_fresh := S (ns_fresh s) |>).
+    change (ns_place_dict (sf <| ns_sid := S (ns_sid sf) |>)) with (ns_place_dict s). rewrite Hd.
+    unfold nbind at 1. unfold nmod at 1. unfold set_api at 1. unfold nmod at 1.
+    change (ns_sid sf) with (ns_sid s).
+    set (s1 := ((sf <| ns_sid := S (ns_sid s) |>) <| ns_place_dict := _ |>) <| ns_apis := _ |>).
+    assert (Ha1 : nth_error (ns_apis s1) ai = Some (with_uuid (ITest (ns_sid s)) a)).
+    { unfold s1. cbn [ns_apis set]. apply nth_error_upd_eq. exact Ha. }
+    assert (Estep : set_api ai (with_params (a_src a)) s1 = Ok (tt, s1)).
+    { unfold set_api, nmod. f_equal. f_equal. unfold s1.
+      match goal with |- ?X <| ns_apis := upd ai ?g (ns_apis (?Y <| ns_apis := upd ai ?h ?l |>)) |> = _ =>
+        change (ns_apis (Y <| ns_apis := upd ai h l |>)) with (upd ai h l);
+        rewrite (upd_upd_same _ h g h l ai) end.
+      - destruct s; reflexivity.
+      - intros x Hx. change (ns_apis ((sf <| ns_sid := S (ns_sid s) |>) <| ns_place_dict := (ITest (ns_sid s), p) :: ns_place_dict (sf <| ns_sid := S (ns_sid s) |>) |>)) with (ns_apis s) in Hx.
+        rewrite Ha in Hx. inversion Hx; subst x. rewrite <- Hps.
+        change (a_params a) with (a_params (with_uuid (ITest (ns_sid s)) a)). apply with_params_same. }
+    unfold nbind at 1. rewrite Estep.
+    unfold nbind at 1. rewrite (subst_loop_noop ai s1 _ Ha1).
+    - unfold nbind at 1. unfold get_api at 1. rewrite Ha1.
+      unfold nmod at 1.
+      change (a_uuid (with_uuid (ITest (ns_sid s)) a)) with (ITest (ns_sid s)).
+      match goal with |- notify_user _ _ _ _ _ _ ?X = _ => assert (EX : X = ss_pre_loop ai p s) by (destruct s; reflexivity) end.
+      rewrite EX. apply notify_user_frag; [exact Hls| |intros _; exact Hni].
       unfold ss_pre_loop, ss_pre. cbn [ns_apis set]. apply nth_error_upd_eq. exact Ha.
     - intros ci Hci. cbn [with_uuid a_ctx] in Hci. destruct (Hctx ci Hci) as [c Hc].
       unfold s1. cbn [ns_apis set].
@@ -655,6 +744,7 @@ Section Cbs.
       (forall ci, a_ctx a = Some ci -> exists c, nth_error (ns_apis s) ci = Some c) ->
       (forall ci, a_ctx a = Some ci -> ci <> ai) -> sub_ok s a ->
       dict_get ident_eqb (a_uuid a) (ns_place_dict s) = Some p ->
+      ec_imm env (ns_nss s) = false ->
       run_cb tasks env (S (S (S (S f)))) (CbSS ai) s
       = Ok (tt, notified SS (with_uuid (ITest (ns_sid s)) a) false (ss_pre_loop ai p s)).
   Proof. intros. rewrite run_cb_S. apply on_service_started_loop; assumption. Qed.
@@ -671,6 +761,7 @@ Section Cbs.
       ls_ok (ns_ls s) -> ns_test_ids s = true ->
       nth_error (ns_apis s) ai = Some a -> a_in_loop a = false ->
       dict_get ident_eqb (a_uuid a) (ns_place_dict s) = Some p ->
+      ec_imm env (ns_nss s) = false ->
       run_cb tasks env (S (S (S (S f)))) (CbSS ai) s
       = Ok (tt, notified SS (with_uuid (ITest (ns_sid s)) a) false (ss_pre ai p s)).
   Proof. intros. rewrite run_cb_S. apply on_service_started_frag; assumption. Qed.
@@ -680,7 +771,7 @@ Section Cbs.
       nth_error (ns_apis s) ai = Some a ->
       run_cb tasks env (S (S (S (S f)))) (CbSF ai) s = Ok (tt, notified SF a false s).
   Proof.
-    intros. rewrite run_cb_S, on_service_finished_S. apply notify_user_frag; assumption.
+    intros. rewrite run_cb_S, on_service_finished_S. apply notify_user_frag; try assumption. intro E; discriminate E.
   Qed.
 
   Lemma run_cb_TF : forall f ai s a,
@@ -690,8 +781,67 @@ Section Cbs.
       = Ok (tt, notified TF a (Nat.eqb (a_name a) production_task) s).
   Proof.
     intros f ai s a Hls Ha. rewrite run_cb_S, on_task_finished_S.
-    unfold nbind, get_api. rewrite Ha. apply notify_user_frag; assumption.
+    unfold nbind, get_api. rewrite Ha. apply notify_user_frag; try assumption. intro E; discriminate E.
   Qed.
+
+  (* ---- a service that the engine reports as finished from inside its started notification
+          (the engine is the only function registered for service-started notifications and no
+          observer is attached: otherwise the rest of the notification would be served after
+          everything that the completion triggers) ---- *)
+  Definition imm_mid (a : api) (s : NS) : NS :=
+    (s <| ns_log := ENotif 0 (notif_of s SS a) (ns_running s) :: ns_log s |>)
+      <| ns_pending := ns_pending s ++ [a_uuid a] |> <| ns_nss := S (ns_nss s) |>.
+  Definition bump (s : NS) : NS := s <| ns_nnot := S (ns_nnot s) |>.
+
+  Definition imm_er (a : api) (s : NS) : NS :=
+    s <| ns_pending := ns_pending s ++ [a_uuid a] |> <| ns_nss := S (ns_nss s) |>.
+
+  Lemma engine_reacts_imm : forall f ai s a s',
+      nth_error (ns_apis s) ai = Some a -> ec_imm env (ns_nss s) = true ->
+      sched_fire_event tasks env f (EvFinish (a_uuid a)) (imm_er a s) = Ok (true, s') ->
+      engine_reacts tasks env (S f) SS ai s = Ok (tt, bump s').
+  Proof.
+    intros f ai s a s' Ha Himm Hfire. destruct Hq as (Hreact & Hmut).
+    rewrite engine_reacts_S. unfold nbind at 1. unfold get_api at 1. rewrite Ha.
+    cbv zeta. rewrite Hmut. unfold hostile.
+    unfold nbind at 1. unfold nbind at 1. unfold nbind at 1. unfold nmod at 1.
+    unfold set_api at 1. unfold nmod at 1.
+    set (s1 := (s <| ns_pending := ns_pending s ++ [a_uuid a] |>) <| ns_apis := _ |>).
+    assert (E1 : s1 = s <| ns_pending := ns_pending s ++ [a_uuid a] |>).
+    { unfold s1. cbn [ns_apis set]. rewrite (upd_same _ _ _ _ _ Ha (with_params_same a)). destruct s; reflexivity. }
+    rewrite E1. clear s1 E1.
+    unfold nbind at 1. unfold nget at 1. unfold nbind at 1. unfold nmod at 1.
+    change (ns_nss (s <| ns_pending := ns_pending s ++ [a_uuid a] |>)) with (ns_nss s). rewrite Himm.
+    unfold nbind at 1. fold (imm_er a s). rewrite Hfire. unfold nret at 1.
+    unfold nbind at 1. unfold nget at 1. unfold nbind at 1. unfold nmod at 1.
+    rewrite Hreact, orb_true_r. reflexivity.
+  Qed.
+
+  Lemma notify_user_imm : forall f ai s a s',
+      listeners_of SS (ns_ls s) = [0] -> nth_error (ns_apis s) ai = Some a -> ec_imm env (ns_nss s) = true ->
+      sched_fire_event tasks env f (EvFinish (a_uuid a)) (imm_mid a s) = Ok (true, s') ->
+      listeners_of SS (ns_ls s') = [0] -> ns_obs s' = [] -> (exists a', nth_error (ns_apis s') ai = Some a') ->
+      notify_user tasks env (S (S f)) SS ai false s = Ok (tt, bump s').
+  Proof.
+    intros f ai s a s' HL Ha Himm Hfire HL' Hobs' [a' Ha'].
+    rewrite notify_user_S. unfold nbind at 1. unfold nget at 1. unfold nbind at 1.
+    assert (E : neach (S f) SS ai (S (List.length (ns_ls s))) 0 s = Ok (tt, bump s')).
+    { cbn [neach]. unfold nbind at 1. unfold nget at 1. rewrite HL. cbn [nth_error].
+      unfold nbind at 1. unfold get_api at 1. rewrite Ha.
+      unfold nbind at 1. unfold nlog at 1, nmod at 1. cbn [rev app Nat.eqb].
+      unfold nbind at 1.
+      rewrite (engine_reacts_imm f ai _ a s'); [| exact Ha | exact Himm | exact Hfire].
+      destruct (List.length (ns_ls s)) as [|h] eqn:EL; cbn [neach].
+      - exfalso. pose proof (listeners_length SS (ns_ls s)) as Hl. rewrite HL, EL in Hl. cbn in Hl. lia.
+      - unfold nbind at 1. unfold nget at 1.
+        change (ns_ls (bump s')) with (ns_ls s'). rewrite HL'. reflexivity. }
+    rewrite E. unfold nbind at 1. unfold nret at 1.
+    unfold nbind at 1. unfold get_api at 1. change (ns_apis (bump s')) with (ns_apis s'). rewrite Ha'.
+    unfold nbind at 1. unfold nget at 1. change (ns_obs (bump s')) with (ns_obs s'). rewrite Hobs'.
+    unfold nlog, nmod. cbn [map rev app]. rewrite set_log_same. reflexivity.
+  Qed.
+
+  Definition ss_pre0 (il : bool) (ai p : nat) (s : NS) : NS := if il then ss_pre_loop ai p s else ss_pre ai p s.
 End Cbs.
 
 (* =========================================================================== *)
@@ -1200,3 +1350,93 @@ Section CondCb.
         intros r Hr. rewrite Hr. reflexivity.
   Qed.
 End CondCb.
+
+(* =========================================================================== *)
+(* the service-started callback when the engine completes the service at once   *)
+(* =========================================================================== *)
+Section ImmCb.
+  Variable tasks : list task.
+  Variable env : envcfg.
+  Variable Hq : env_quiet env.
+
+  Lemma ident_eqb_refl' : forall a, ident_eqb a a = true.
+  Proof. intros [i|i]; cbn [ident_eqb]; apply Nat.eqb_refl. Qed.
+
+  Lemma RunCb_SS_imm : forall ai s a p s',
+      ns_test_ids s = true -> listeners_of SS (ns_ls s) = [0] ->
+      nth_error (ns_apis s) ai = Some a -> a_params a = a_src a ->
+      (forall ci, a_ctx a = Some ci -> exists c, nth_error (ns_apis s) ci = Some c) ->
+      (forall ci, a_ctx a = Some ci -> ci <> ai) -> sub_ok s a ->
+      dict_get ident_eqb (a_uuid a) (ns_place_dict s) = Some p ->
+      ec_imm env (ns_nss s) = true ->
+      existsb (event_eqb (EvFinish (ITest (ns_sid s)))) (ns_awaited s) = false ->
+      has_place s p = true ->
+      let a' := with_uuid (ITest (ns_sid s)) a in
+      let mid := imm_mid a' (ss_pre0 (a_in_loop a) ai p s) in
+      EvalTo tasks env (placed p (mid <| ns_awaited := ns_awaited s |>)) s' ->
+      listeners_of SS (ns_ls s') = [0] -> ns_obs s' = [] -> (exists a'', nth_error (ns_apis s') ai = Some a'') ->
+      RunCb tasks env (CbSS ai) s (bump s').
+  Proof.
+    intros ai s a p s' Hti HL Ha Hps Hctx Hne Hsub Hd Himm Hnaw Hhas a' mid Hev HL' Hobs' Hapi'.
+    set (ev := EvFinish (ITest (ns_sid s))) in *.
+    assert (Eaw : ns_awaited mid = ns_awaited s ++ [ev]) by (unfold mid, imm_mid, ss_pre0; destruct (a_in_loop a); reflexivity).
+    assert (Hevr : event_eqb ev ev = true) by (unfold ev; cbn [event_eqb ident_eqb]; apply Nat.eqb_refl).
+    destruct (remove_first_snoc ev (ns_awaited s) Hevr Hnaw) as [Hrem Hex].
+    destruct (fire_event_to tasks env ev mid (ns_awaited s) p s') as [f0 Hf0].
+    - rewrite Eaw. exact Hex.
+    - rewrite Eaw. exact Hrem.
+    - unfold ev, mid, imm_mid, ss_pre0. destruct (a_in_loop a); cbn [ns_place_dict set ss_pre ss_pre_loop dict_get ident_eqb];
+        rewrite Nat.eqb_refl; reflexivity.
+    - unfold mid, imm_mid, ss_pre0. destruct (a_in_loop a); exact Hhas.
+    - exact Hev.
+    - exists (S (S (S (S f0)))). intros f Hf. do 4 (destruct f as [|f]; [lia|]).
+      rewrite run_cb_S.
+      assert (Ha1 : forall il, nth_error (ns_apis (ss_pre0 il ai p s)) ai = Some a').
+      { intro il. unfold ss_pre0, ss_pre_loop, ss_pre. destruct il; cbn [ns_apis set]; apply nth_error_upd_eq; exact Ha. }
+      assert (Hni : forall il, ec_imm env (ns_nss (ss_pre0 il ai p s)) = true).
+      { intro il. unfold ss_pre0. destruct il; exact Himm. }
+      assert (HL1 : forall il, listeners_of SS (ns_ls (ss_pre0 il ai p s)) = [0]).
+      { intro il. unfold ss_pre0. destruct il; exact HL. }
+      unfold mid in Hf0.
+      destruct (a_in_loop a) eqn:Eil.
+      + rewrite (on_service_started_loop_eq tasks env f ai s a p); try assumption.
+        apply (notify_user_imm tasks env Hq f ai _ a' s' (HL1 true) (Ha1 true) (Hni true)); try assumption.
+        apply Hf0. lia.
+      + rewrite (on_service_started_eq tasks env f ai s a p); try assumption.
+        apply (notify_user_imm tasks env Hq f ai _ a' s' (HL1 false) (Ha1 false) (Hni false)); try assumption.
+        apply Hf0. lia.
+  Qed.
+End ImmCb.
+
+(* =========================================================================== *)
+(* an evaluation changes neither the registered functions nor the attached      *)
+(* observers, and no API object disappears (NetQuiescent's frame rule)          *)
+(* =========================================================================== *)
+From PFDL Require Import NetQuiescent.
+
+Definition keeps (s s' : NS) : Prop :=
+  ns_ls s' = ns_ls s /\ ns_obs s' = ns_obs s /\ List.length (ns_apis s) <= List.length (ns_apis s').
+
+Lemma keeps_refl : forall s, keeps s s.
+Proof. intro s. unfold keeps. repeat split; auto. Qed.
+Lemma keeps_trans : forall a b c, keeps a b -> keeps b c -> keeps a c.
+Proof. unfold keeps. intros a b c (A1 & A2 & A3) (B1 & B2 & B3). repeat split; [congruence|congruence|lia]. Qed.
+
+Ltac keeps_solve :=
+  unfold keeps; cbn;
+  rewrite ?NetQuiescent.fold_upd_length, ?NetQuiescent.upd_length, ?map_length, ?app_length; cbn; repeat split; try reflexivity; lia.
+Ltac kprim_solve :=
+  intros; try (match goal with |- fpres _ _ => intros ? ? ? HH; inversion HH; subst; clear HH end);
+  keeps_solve.
+
+Theorem keeps_frame : frame_ok keeps.
+Proof.
+  constructor; constructor; first [exact keeps_refl | exact keeps_trans | solve [kprim_solve]].
+Qed.
+
+Theorem eval_keeps : forall tasks env s s', EvalTo tasks env s s' -> keeps s s'.
+Proof.
+  intros tasks env s s' [f0 H].
+  destruct (frame_block (fr_s keeps_frame) (fr_n keeps_frame) tasks env f0) as (E & _).
+  apply (E s tt s'). apply H. apply Nat.le_refl.
+Qed.
